@@ -263,6 +263,8 @@ def _gen(rng, tier, lane):
     inst = mec.random_instance(rng, kind, max_reads=maxr, max_cols=rng.choice([2, 3, 4, 5, 6, 8, 9, 10]))
     if inst["kind"] in ("quartet", "threegen") and len(inst["reads"]) > 9:
         inst["reads"] = inst["reads"][:9]
+        # the column list was derived from all reads: hand it to the solver explicitly, as `phase` does
+        inst["explicit_positions"] = True
     return inst
 
 
